@@ -41,6 +41,9 @@ type DB struct {
 	// BeforeWrite is called when the proxy sees a write, before it is forwarded to the engine (or failed):
 	// whatever the engine holds at that moment is what a crash at the start of the commit leaves behind.
 	BeforeWrite func(c Commit)
+	// staged-write faults: the k-th Put/Delete/DeleteRange STAGED into any batch from now on returns ErrInjected
+	// (nothing reaches the engine: the caller's batch closure sees an error in the middle of its work)
+	stagedN, stagedFailAt int
 }
 
 func New(inner db.KeyValueStore) *DB { return &DB{KeyValueStore: inner} }
@@ -112,6 +115,31 @@ func (d *DB) DeleteRange(a, b []byte) error {
 	return d.commit("deleterange", 1, func() error { return d.KeyValueStore.DeleteRange(a, b) })
 }
 
+// FailStaged arms a staged-write fault: the k-th operation staged into a batch from now on (k >= 1) fails. k = 0 disarms.
+func (d *DB) FailStaged(k int) {
+	d.mu.Lock()
+	defer d.mu.Unlock()
+	if k <= 0 {
+		d.stagedFailAt = 0
+		return
+	}
+	d.stagedFailAt = d.stagedN + k
+}
+
+// StagedArmed reports whether a staged-write fault is still pending; StagedCount counts staged operations so far.
+func (d *DB) StagedArmed() bool { d.mu.Lock(); defer d.mu.Unlock(); return d.stagedFailAt > d.stagedN }
+func (d *DB) StagedCount() int  { d.mu.Lock(); defer d.mu.Unlock(); return d.stagedN }
+
+func (d *DB) staged() error {
+	d.mu.Lock()
+	defer d.mu.Unlock()
+	d.stagedN++
+	if d.stagedFailAt == d.stagedN {
+		return ErrInjected
+	}
+	return nil
+}
+
 // ---- batches ----
 type batch struct {
 	db.IndexedBatch
@@ -119,9 +147,27 @@ type batch struct {
 	ops int
 }
 
-func (b *batch) Put(k, v []byte) error       { b.ops++; return b.IndexedBatch.Put(k, v) }
-func (b *batch) Delete(k []byte) error       { b.ops++; return b.IndexedBatch.Delete(k) }
-func (b *batch) DeleteRange(x, y []byte) error { b.ops++; return b.IndexedBatch.DeleteRange(x, y) }
+func (b *batch) Put(k, v []byte) error {
+	if err := b.d.staged(); err != nil {
+		return err
+	}
+	b.ops++
+	return b.IndexedBatch.Put(k, v)
+}
+func (b *batch) Delete(k []byte) error {
+	if err := b.d.staged(); err != nil {
+		return err
+	}
+	b.ops++
+	return b.IndexedBatch.Delete(k)
+}
+func (b *batch) DeleteRange(x, y []byte) error {
+	if err := b.d.staged(); err != nil {
+		return err
+	}
+	b.ops++
+	return b.IndexedBatch.DeleteRange(x, y)
+}
 func (b *batch) Write() error {
 	return b.d.commit("batch", b.ops, func() error { return b.IndexedBatch.Write() }, b.IndexedBatch.Size())
 }
@@ -134,9 +180,27 @@ type plainBatch struct {
 	ops int
 }
 
-func (b *plainBatch) Put(k, v []byte) error       { b.ops++; return b.Batch.Put(k, v) }
-func (b *plainBatch) Delete(k []byte) error       { b.ops++; return b.Batch.Delete(k) }
-func (b *plainBatch) DeleteRange(x, y []byte) error { b.ops++; return b.Batch.DeleteRange(x, y) }
+func (b *plainBatch) Put(k, v []byte) error {
+	if err := b.d.staged(); err != nil {
+		return err
+	}
+	b.ops++
+	return b.Batch.Put(k, v)
+}
+func (b *plainBatch) Delete(k []byte) error {
+	if err := b.d.staged(); err != nil {
+		return err
+	}
+	b.ops++
+	return b.Batch.Delete(k)
+}
+func (b *plainBatch) DeleteRange(x, y []byte) error {
+	if err := b.d.staged(); err != nil {
+		return err
+	}
+	b.ops++
+	return b.Batch.DeleteRange(x, y)
+}
 func (b *plainBatch) Write() error {
 	return b.d.commit("batch", b.ops, func() error { return b.Batch.Write() }, b.Batch.Size())
 }
